@@ -185,7 +185,7 @@ pub fn run(o: &Opts) -> Report {
         let enc = enc.join(" ");
         // (A) well-formed prefixes
         for _ in 0..(if o.thorough() { 12 } else { 8 }) {
-            let (mut words, level, pos_state, after_hyphen_pos) = gen_prefix(&mut rng, &root);
+            let (mut words, level, pos_state, _after_hyphen_pos) = gen_prefix(&mut rng, &root);
             if pos_state { rep.count("wellformed_cases_in_open_positional"); }
             let mut pool: Vec<String> = vec!["".into(), "-".into(), "--".into(), "--o".into(), "--op".into(), "s".into(), "su".into(), "zz".into(), "--zz".into()];
             for a in &level.args { if let Some(l) = &a.long { pool.push(format!("--{}", &l[..l.len() / 2])); pool.push(format!("--{l}")); } if a.kind == 0 { if let Some(s) = a.short { pool.push(format!("-{s}")); } }
@@ -254,8 +254,7 @@ pub fn run(o: &Opts) -> Report {
                     let named = [clap::error::ContextKind::InvalidArg, clap::error::ContextKind::InvalidSubcommand].iter().filter_map(|c| e.get(*c)).any(|cv| match cv { clap::error::ContextValue::String(x) => x == v, _ => false });
                     (e.kind(), named) }));
                 if let Ok(Some((k, named))) = r { if named && matches!(k, clap::error::ErrorKind::UnknownArgument | clap::error::ErrorKind::InvalidSubcommand) && !(is_short && v.len() > 2) {
-                    let class = if after_hyphen_pos && v.starts_with("--") { "candidate-rejected-by-parser:long-option-after-hyphen-value-positional" } else { "candidate-rejected-by-parser" };
-                    rep.oracle_fail(class, &key, &format!("candidate {v:?}: parser says {k:?} for {line:?}")); } }
+                    rep.oracle_fail("candidate-rejected-by-parser", &key, &format!("candidate {v:?}: parser says {k:?} for {line:?}")); } }
             }
             // completeness and the hidden rule (only when the word cannot be an option value: no `=`)
             if !w.contains('=') && !value_cluster {
